@@ -122,12 +122,97 @@ def inner_conditions(root: ast.AST) -> dict[int, list]:
     return out
 
 
+def entry_conditions(fn: ast.AST) -> dict[int, list]:
+    """id(statement) -> the conditions under which the *blocks* enclosing it were entered (the
+    path conditions of the first statement of every enclosing block, innermost last).  Unlike
+    ``conditions`` this is not affected by assignments made inside the block before the
+    statement: it answers "which branch is this in", about the values tested at the branch."""
+    at = {id(st): cs for st, cs in conditions(fn)}
+    out: dict[int, list] = {}
+
+    def go(body: list, inherited: list) -> None:
+        if not body:
+            return
+        entry = inherited + [c for c in at.get(id(body[0]), []) if all(c is not x for x in inherited)]
+        for st in body:
+            out[id(st)] = entry
+            for fld in ("body", "orelse", "finalbody"):
+                sub = getattr(st, fld, None)
+                if isinstance(sub, list) and sub and isinstance(sub[0], ast.stmt):
+                    go(sub, entry)
+            if isinstance(st, ast.Try):
+                for h in st.handlers:
+                    go(h.body, entry)
+
+    go(list(fn.body), [])
+    return out
+
+
 def conditions(fn: ast.AST) -> list[tuple[ast.stmt, list]]:
     """(statement, conjuncts that hold whenever it runs) for every statement of ``fn`` (nested
     defs excluded) — the same path conditions ``exits`` attaches to raise/return."""
     rec: list[tuple[ast.stmt, list]] = []
     exits(fn, resolve_locals=False, _record=rec)
     return rec
+
+
+_MUTATORS = {"append", "extend", "insert", "pop", "remove", "clear", "update", "setdefault", "popitem", "add", "discard", "appendleft", "popleft", "sort", "reverse", "push"}
+
+
+def _chain(e: ast.AST) -> Optional[str]:
+    parts = []
+    while isinstance(e, ast.Attribute):
+        parts.append(e.attr)
+        e = e.value
+    if isinstance(e, ast.Name):
+        return ".".join([e.id] + parts[::-1])
+    return None
+
+
+def stored_in(st: ast.AST) -> set[str]:
+    """names / attribute chains whose value may change when ``st`` runs (assignment targets, loop
+    and with targets, deleted names, receivers of in-place container methods)"""
+    out: set[str] = set()
+    for n in ast.walk(st):
+        if isinstance(n, (ast.FunctionDef, ast.AsyncFunctionDef, ast.Lambda)) and n is not st:
+            continue
+        if isinstance(n, ast.Name) and isinstance(n.ctx, (ast.Store, ast.Del)):
+            out.add(n.id)
+        elif isinstance(n, ast.Attribute) and isinstance(n.ctx, (ast.Store, ast.Del)):
+            c = _chain(n)
+            if c:
+                out.add(c)
+        elif isinstance(n, ast.Subscript) and isinstance(n.ctx, (ast.Store, ast.Del)):
+            c = _chain(n.value)
+            if c:
+                out.add(c)
+        elif isinstance(n, ast.Call) and isinstance(n.func, ast.Attribute) and n.func.attr in _MUTATORS:
+            c = _chain(n.func.value)
+            if c:
+                out.add(c)
+        elif isinstance(n, ast.Call) and isinstance(n.func, ast.Name) and n.func.id == "next" and n.args:
+            c = _chain(n.args[0])
+            if c:
+                out.add(c)
+    return out
+
+
+def _mentions(c: ast.AST, stored: set[str]) -> bool:
+    for n in ast.walk(c):
+        if isinstance(n, ast.Name) and n.id in stored:
+            return True
+        if isinstance(n, ast.Attribute):
+            ch = _chain(n)
+            if ch and any(ch == s_ or ch.startswith(s_ + ".") or s_.startswith(ch + ".") for s_ in stored if "." in s_):
+                return True
+    return False
+
+
+def _kill(conds: list, stored: set[str]) -> list:
+    """a condition about something that has since been assigned is no longer known"""
+    if not stored:
+        return conds
+    return [c for c in conds if not _mentions(c, stored)]
 
 
 def exits(fn: ast.AST, resolve_locals: bool = True, _record: Optional[list] = None) -> list[Exit]:
@@ -157,6 +242,7 @@ def exits(fn: ast.AST, resolve_locals: bool = True, _record: Optional[list] = No
                 elif e2 is None:
                     conds = e1
                 else:
+                    conds = _kill(conds, stored_in(st))
                     # both fall through: what holds afterwards is the disjunction of what each
                     # branch established (kept as ONE conjunct `(a and b) or (c)`)
                     base_ids = {id(c) for c in conds}
@@ -173,23 +259,30 @@ def exits(fn: ast.AST, resolve_locals: bool = True, _record: Optional[list] = No
                 # leaves this iteration: what follows in the block runs only if we did not get here
                 return None
             if isinstance(st, (ast.For, ast.AsyncFor, ast.While)):
+                # what the loop assigns is unknown from the second iteration on, and afterwards
+                conds = _kill(conds, stored_in(st))
                 block(st.body, conds)
                 block(st.orelse, conds)
                 continue
             if isinstance(st, (ast.With, ast.AsyncWith)):
-                r = block(st.body, conds)
+                r = block(st.body, _kill(conds, set().union(*[stored_in(i) for i in st.items])))
                 if r is None:
                     return None
+                conds = _kill(conds, stored_in(st))
                 continue
             if isinstance(st, ast.Try):
                 r = block(st.body, conds)
+                after = _kill(conds, stored_in(st))
                 for h in st.handlers:
-                    block(h.body, conds)
-                block(st.orelse, conds)
-                block(st.finalbody, conds)
+                    block(h.body, _kill(conds, stored_in(ast.Module(body=st.body, type_ignores=[]))))
+                block(st.orelse, after)
+                block(st.finalbody, after)
                 if r is None and all(_always_leaves(h.body) for h in st.handlers) and st.handlers:
                     return None
+                conds = after
                 continue
+            # a simple statement: whatever it assigns is no longer what the conditions spoke about
+            conds = _kill(conds, stored_in(st))
         return conds
 
     body = list(fn.body)
